@@ -2,6 +2,7 @@ package main
 
 import (
 	"bytes"
+	"time"
 	"fmt"
 	"math"
 	"strconv"
@@ -101,6 +102,11 @@ func c10Check(pj *simdjson.ParsedJson, docs []*ref.Node, c Cfg) (string, string)
 }
 
 func c10Body(w *W) {
+	t0 := time.Now()
+	lap := func(name string) {
+		w.Max("max_ms_"+name, time.Since(t0).Milliseconds())
+		t0 = time.Now()
+	}
 	// (a) every document of the standard space and every accepted NDJSON input
 	doc := func(harness string, text []byte, nd bool) {
 		var docs []*ref.Node
@@ -133,9 +139,20 @@ func c10Body(w *W) {
 		if strings.HasPrefix(name, "tree/") && name != "tree/compact" && name != "tree/lf+tab" {
 			return // marshalled output does not depend on the input's white space: two layouts suffice
 		}
+		if strings.HasPrefix(name, "depth-") {
+			// inner-value marshalling costs O(depth^2) per document: every depth up to 130 (past
+			// the marshaller's 100-entry stack), then every 25th
+			var d int
+			fmt.Sscanf(name[strings.LastIndex(name, "-")+1:], "%d", &d)
+			if d > 130 && d%25 != 0 {
+				return
+			}
+		}
 		doc("C10-"+name, text, false)
 	})
+	lap("stddocs")
 	forEachNDInput(w, func(name string, text []byte) { doc("C10-nd-"+name, text, true) })
+	lap("nd")
 
 	// (b) strings containing every byte that needs escaping, and every UTF-8 length class
 	w.Note("escape coverage: a string containing each byte 0x00..0x7f (via \\u escapes where needed) alone, first, last and in the middle; 2/3/4-byte UTF-8")
@@ -181,6 +198,7 @@ func c10Body(w *W) {
 		doc("C10-floats", []byte(sb.String()), false)
 	}
 
+	lap("escapes_floats")
 	// (c) every state of the edit/delete history graph
 	hp := c14Params(w)
 	hp.prop = "C10"
@@ -204,6 +222,7 @@ func c10Body(w *W) {
 	w.Note(fmt.Sprintf("edited tapes: every state of the replace/delete history graph to depth %d (NOP gaps in every position)", hp.maxDepth))
 	exploreHistories(w, hp)
 
+	lap("histories")
 	// (d) non-finite floats: every marshal call covering the node must fail with no bytes
 	w.Note("non-finite floats: SetFloat(NaN, +Inf, -Inf) at every number/string position of every seed; the root marshal, the value's own marshal and every enclosing Array/Elements marshal must return an error and no bytes")
 	for si, seed := range editSeeds {
